@@ -360,3 +360,63 @@ func zzH_C17_followup_request(t *zzT) {
 	}
 	t.Reach("end")
 }
+
+// ---- C17 "within its timeout … not lost when it arrives before the deadline": a symbolic wall clock ----
+
+var (
+	zz17Nsec   int64           // sub-second part of the stubbed wall clock (symbolic under the engine)
+	zz17Waits  []time.Duration // every duration handed to time.After
+)
+
+func zz17NowSub() time.Time { return time.Unix(zzClockSec, zz17Nsec) }
+func zz17AfterRec(d time.Duration) <-chan time.Time {
+	zz17Waits = append(zz17Waits, d)
+	return zz17T.TimerChan(d)
+}
+
+// The wait for a response lasts the full configured timeout on EVERY attempt, whatever the wall clock
+// reads (any sub-second phase) when the request is created: a response that arrives before the deadline
+// cannot be cut off by clock arithmetic. Under the engine the clock is a stub with a symbolic nanosecond
+// part, nobody answers, and every duration the layer hands to time.After is compared with the timeout.
+// Natively the request is issued late in a wall-clock second and answered after half the timeout: it
+// must be delivered. (seed C17-5 derived the deadline from the request's timestamp, which has
+// one-second granularity.)
+//
+//zz:opt loop=4000 timeout=60000
+//zz:stub time.Now zz17NowSub
+//zz:stub time.After zz17AfterRec
+//zz:stub github.com/google/uuid.New zz17UUID
+//zz:stub github.com/libp2p/go-libp2p/core/network.WithUseTransient zzStubWithUseTransient
+func zzH_C17_wait_lasts_full_timeout(t *zzT) {
+	const label = "the wait for a response lasts the full timeout whatever the wall clock reads (a response before the deadline is not lost)"
+	timeout := 600 * time.Millisecond
+	if t.Symbolic() {
+		ns := t.U32("clock.nsec")
+		t.Assume(ns < 1_000_000_000)
+		zz17Nsec = int64(ns)
+		zz17Waits = nil
+		mp, h := zz17New(t, false, timeout)
+		_, err := mp.request(context.Background(), zzPeerID(0), "k", []byte{1})
+		t.Assert(err == errTimeout, "an unanswered request ends with the timeout error")
+		t.Assert(h.requests == messageMaxRetries+1 && len(zz17Waits) == messageMaxRetries+1, "one wait per attempt, retry budget respected")
+		for _, d := range zz17Waits {
+			t.Assert(d >= timeout, label)
+		}
+		t.Assert(len(mp.resCh) == 0, "no pending entry is leaked")
+		t.Reach("end")
+		return
+	}
+	// native: phase 0.85 .. 0.95 of a wall-clock second, response after half the timeout
+	for time.Now().Nanosecond() < 850_000_000 || time.Now().Nanosecond() > 950_000_000 {
+		time.Sleep(5 * time.Millisecond)
+	}
+	mp, h := zz17New(t, false, timeout)
+	go func() {
+		raw := <-h.sent
+		time.Sleep(timeout / 2)
+		zz17Respond(mp, raw, zzPeerID(0))
+	}()
+	res, err := mp.sendRequestMessage(context.Background(), zzPeerID(0), "k", []byte{1})
+	t.Assert(err == nil && res != nil, label)
+	t.Reach("end")
+}
